@@ -6,12 +6,18 @@ from vlib import extract, mir
 names = set()
 mods = set()
 traits = set()
+adts = set()
+by_config = {}
 for c in extract.CONFIGS:
     d, m = extract.extract(c)
     mods.update(d.get("mods", []))
     traits.update(d.get("traits", []))
+    adts.update(a["path"] for a in d.get("adts", []))
     for f in d["fns"]:
         names.add(f["path"]); names.add(mir.strip_generics(f["path"]))
-json.dump({"comment": "function inventory of the reference tree, all configurations", "functions": sorted(names), "modules": sorted(mods), "traits": sorted(traits)},
-          open(os.path.join(os.path.dirname(os.path.dirname(os.path.abspath(__file__))), "tables", "known_fns.json"), "w"), indent=0)
+    by_config[c] = {"fns": {f["path"]: extract.fn_signature(f) for f in d["fns"]},
+                    "adts": {a["path"]: extract.adt_shape(a) for a in d.get("adts", [])}}
+json.dump({"comment": "inventory of the reference tree, all configurations: function paths (with and without generics), modules, traits, types; per configuration the signatures and type shapes used to recognise renamed items",
+           "functions": sorted(names), "modules": sorted(mods), "traits": sorted(traits), "adts": sorted(adts), "by_config": by_config},
+          open(os.path.join(os.path.dirname(os.path.dirname(os.path.abspath(__file__))), "tables", "known_fns.json"), "w"), indent=0, sort_keys=True)
 print(len(names), "functions")
